@@ -240,6 +240,7 @@ def run_tree_case(ctx):
                 res = None
         if res is not None and how is not None:
             if any(res is lv.mp for lv in mon.pool):
+                ctx.violate(f"tree|{how}|returns-one-of-its-inputs-instead-of-a-new-object", trace=mon.trace[-4:])
                 continue
             if max(res.bond_dims) > 40:
                 continue
